@@ -197,10 +197,20 @@ def run(tier, seed):
         "distinct write history (its output bytes), transitions are its writes + reads; non-trivial = all but the empty history",
         "samples": [{"writes": [["add_short", 253], ["add_fixed_encoded_string", "€", 3, 1], ["add_string", "Ā"]]}],
     }
+    from .. import kwforms
+
+    for w in kwforms.check("writer"):
+        violations.append({"key": "keyword-form:" + w.split(":")[0][:60], "what": w, "case": {"kwforms": True}})
+    coverage["keyword_call_forms_checked"] = True
     return {"coverage": coverage, "violations": violations}
 
 
 def replay(case):
+    if isinstance(case, dict) and case.get("kwforms"):
+        from .. import kwforms
+
+        bad = kwforms.check("writer")
+        return bad[0] if bad else None
     loader.install_shims()
     if case.get("job"):
         _, bads = _shard(([_fix(o) for o in case["job"]["firsts"]], int(case["job"]["depth"])))
